@@ -54,7 +54,7 @@ def run(ctx: Ctx) -> int:
     rows: list[dict] = []
 
     def add(tg: blobfuzz.Target, data: bytes, fields: list[str], kinds: list[str], what: str, allowed: list[str], cache: t.Any = None) -> None:
-        res, exc, _, _ = tg.unprotect(data, kdf_budget=400, cache=cache)
+        res, exc, _, _ = tg.unprotect(data, kdf_budget=400, cache=cache, use_async=(len(rows) % 7 == 3))   # both API flavours
         if res in ("kdf_budget", "step_budget"):
             res = "error"
         sealed = any(f in ("wrapped_cek", "gcm_nonce", "ciphertext", "tag") or (f == "trailing_bytes" and tg.layout == "trailing") for f in fields) \
